@@ -47,7 +47,8 @@ RULE = (
     "symbols), 'ver' (full product of version modes x id sharing x base flags x deleted set), 'count' (0..3 "
     "symbols deleted, everything placed everywhere), 'rt' (deletion requests combined, in either registration order, with "
     "retarget_symbol_uses requests of the same context: S1->K, S1->S2, S1->K+S2->K; expectation from the module a context with "
-    "only the retargets leaves) are each enumerated completely by mixed-radix index; "
+    "only the retargets leaves), 'stale' (an earlier, abandoned RewritingContext on the same module had queued deletions) "
+    "are each enumerated completely by mixed-radix index; "
     "distinct = distinct case descriptors; non-trivial = at least one deleted symbol occurs in at least one place"
 )
 ASSUMPTIONS = [
@@ -773,6 +774,12 @@ def run_case(case):
     deleted = {n: w.sym[n] for n in order}
     dnames = tuple(sorted(deleted))
 
+    if case.get("stale"):
+        # an earlier context on this module queued requests and was abandoned without apply(): nothing of it may survive
+        c0 = gtirb_rewriting.RewritingContext(m, [])
+        for n0, f0 in case["stale"]:
+            c0.delete_symbol(w.sym[n0], force=bool(f0))
+        del c0
     ctx = gtirb_rewriting.RewritingContext(m, [])
     if case.get("rt"):
         # the same context also retargets uses: "still use it" is decided at the end of rewriting, i.e. on the module a
@@ -1049,7 +1056,29 @@ def make_rt(name, ch):
                       "rt": [list(x) for x in rt], "rt_first": first})
 
 
-FAMILIES = {"one": (fam_one, make_one), "pair": (fam_pair, make_pair), "ver": (fam_ver, make_ver), "count": (fam_count, make_count), "rt": (fam_rt, make_rt)}
+def fam_stale(tier):
+    out = []
+    for fmt in ("ELF", "PE"):
+        stale = [(("S2", 1),), (("S2", 0),), (("S1", 1),), (("K", 1), ("S2", 1))]
+        out.append(("stale5/" + fmt, [[0, 31] if tier == "quick" else list(range(32)), [0, 31], stale, ["F", "T"], [("full", 0)]]))
+    return out
+
+
+def make_stale(name, ch):
+    fmt = name.split("/")[1]
+    m1, m2, stale, r1, (kprof, share) = ch
+    G = GROUPS[(fmt, 5)]
+
+    def places(mask):
+        return [p for i, grp in enumerate(G) if mask >> i & 1 for p in grp]
+
+    s1 = places(m1)
+    k = {"none": [], "same": list(s1), "full": list(PLACES[fmt])}[kprof]
+    return _with_ver({"fam": "stale", "fmt": fmt, "pl": {"S1": s1, "S2": places(m2), "K": k}, "share": share, "req": {"S1": r1}, "ref": 0,
+                      "stale": [list(x) for x in stale]})
+
+
+FAMILIES = {"stale": (fam_stale, make_stale), "one": (fam_one, make_one), "pair": (fam_pair, make_pair), "ver": (fam_ver, make_ver), "count": (fam_count, make_count), "rt": (fam_rt, make_rt)}
 CHUNK = {"quick": 1024, "thorough": 8192}
 
 
